@@ -130,7 +130,12 @@ def run(ctx):
             sm = pv.mentions_call(r'WeightedSampler::sample_nodes$')
             if sm is not None:
                 cw = sm.mentions_call(r'::calculate_weights$')
-                okp = cw is not None and any(x.k == 'let' and x.b == 'remaining_candidates' for x in cw.b[1].walk()) and sm.b[2].const_value() == 1
+                # the pool by role: the collection from which the chosen node is removed each round (remove / swap_remove / retain)
+                pool = set()
+                for rc in sel.calls(r'(Vec|HashSet|VecDeque|BTreeSet|HashMap)::<.*>::(remove|swap_remove|retain|take)$'):
+                    if rc.bb in main[1] and rc.args and 'p' in rc.args[0]:
+                        pool |= L.alias_of(sel, [rc.args[0]['p'][0]])
+                okp = cw is not None and len(cw.b) > 1 and L.touches(sel, cw.b[1], pool) and sm.b[2].const_value() == 1
     ctx.ob('PROVENANCE', 'selected-from-remaining', okp, sel.where(),
            'the pushed node is sample_nodes(calculate_weights(remaining_candidates ..), 1): %s' % okp)
     sn = prog.inl(SAMPLER + '::sample_nodes')          # argument checks may live in a private helper
